@@ -107,6 +107,7 @@ class TlcResult:
         return res
 
 
+_RAW_LINE = re.compile(r'^[A-Z][A-Z-]* \{')
 _STR_LINE = re.compile(r'^"(?:[^"\\]|\\.)*"$')
 
 
@@ -179,6 +180,8 @@ def tlc(module, cfg=None, workers=8, timeout=1200, env=None, simulate=None, dept
     for ln in p.stdout.splitlines():
         if ln.startswith('"') and _STR_LINE.match(ln):
             res.lines.append(_untla(ln))
+        elif _RAW_LINE.match(ln):
+            res.lines.append(ln)      # raw line written by the Java override LuaStr!EmitLine
         m = re.match(r"^(\d+) states generated, (\d+) distinct states found", ln)
         if m:
             res.generated = int(m.group(1))
